@@ -82,6 +82,30 @@ def sweep_history(k, k2):
             {"a": "Solve", "k": k2}, {"a": "GetPlannerData"}, {"a": "Destroy"}]
 
 
+# ---- "clear() forgets the old query completely": the first query has a near and a far goal (or start), the planner
+# solves it and keeps improving (pruning drops the far one), then clear() / a new definition, and the NEW query starts
+# where the old far goal was and wants to go elsewhere - whatever the planner kept of the old query is now the
+# nearest thing to reach
+FORGET = [  # (W, H, obst, first query, second query)
+    (3, 3, [4], {"start": 0, "goal": 1, "xg": [8]}, {"start": 8, "goal": 2}),
+    (3, 3, [4], {"start": 0, "goal": 3, "xg": [8, 2]}, {"start": 2, "goal": 6}),
+    (4, 4, [5, 6, 9], {"start": 0, "goal": 1, "xg": [15]}, {"start": 15, "goal": 3}),
+    (3, 3, [4], {"start": 1, "goal": 0, "xs": [8]}, {"start": 6, "goal": 8}),
+    (3, 3, [], {"start": 0, "goal": 1, "xg": [8]}, {"start": 8, "goal": 6}),
+]
+
+
+def forget_histories(rng, mt, slow):
+    k1 = "k400" if (mt or slow) else rng.choice(["k150", "k300"])
+    k2 = "k400" if (mt or slow) else rng.choice(["k5", "k60", "k150", "inf"])
+    first = [{"a": "SetPdef", "p": "A"}, {"a": "Solve", "k": "inf"}, {"a": "Solve", "k": k1}, {"a": "Solve", "k": k1}]
+    if rng.random() < 0.5:   # switch to the other definition after clear()
+        rest = [{"a": "Clear"}, {"a": "SetPdef", "p": "B"}, {"a": "Solve", "k": k2}]
+    else:                    # new query on the same definition, then clear()
+        rest = [{"a": "NewQuery", "p": "A"}, {"a": "Clear"}, {"a": "Solve", "k": k2}]
+    return first + rest + [{"a": "GetPlannerData"}, {"a": "Destroy"}], rest[0]["a"] == "NewQuery"
+
+
 def run(tier):
     ck = Check(PID, tier, "model_checking")
     ck.assumptions += [
@@ -121,6 +145,18 @@ def run(tier):
             jobs.append({"id": jid, "planner": p["name"], "W": W, "H": H, "obst": sorted(set(obst)),
                          "seed": rng.randrange(1, 1 << 30), "thr": rng.choice([0.0, 0.0, 0.5]), "ops": h,
                          "params": c01.pick_params(p, rng, prob=0.6)})
+    nforget = 0
+    for p in planners:
+        mt, slow = bool(p["flags"] & F_MT), bool(p["flags"] & F_SLOW)
+        for W, H, obst, q1, q2 in (rng.sample(FORGET, 2) if tier == "quick" else FORGET * 3):
+            h, same_def = forget_histories(rng, mt, slow)
+            jid += 1
+            nforget += 1
+            # queries are consumed in order: A, B at the start, then one per NewQuery
+            queries = [q1, q2, q2] if same_def else [q1, q2]
+            jobs.append({"id": jid, "planner": p["name"], "W": W, "H": H, "obst": obst, "seed": rng.randrange(1, 1 << 30),
+                         "thr": 0.0, "ops": h, "queries": queries, "params": c01.pick_params(p, rng, prob=0.8)})
+    ck.set("forget_histories", nforget)
     rng.shuffle(jobs)
     jpath = os.path.join(WORK, "c03-jobs.ndjson")
     vlib.write_ndjson(jpath, jobs)
